@@ -29,6 +29,8 @@ func TypeResolvingTemplateHelpers(context languages.Context) template.FuncMap {
 		},
 		"resolvesToBuilder": context.ResolveToBuilder,
 		"resolveRefs":       context.ResolveRefs,
+		// `MaybeE: E | null`: the nullable type a reference goes through, if any
+		"resolveNullableAlias": context.ResolveNullableAlias,
 		// collections defined in terms of themselves: `M: [string]: M`
 		"isRecursiveCollection": context.IsRecursiveCollection,
 		"resolvesToComposableSlot": func(typeDef ast.Type) bool {
